@@ -2,7 +2,7 @@
 independent wire decoders written from MS-LLTD (not from the C headers, not
 from the Coq model), specification-level trackers, configuration and session
 generators."""
-import struct
+import struct, re
 from lltdgen import *
 import vcommon as V
 
@@ -293,6 +293,10 @@ def other_iface_variants(text, rng, n, stride=None):
         if any(l.startswith(('cfg 1', 'frame 1')) for l in lines): continue
         c1 = rand_cfg(rng, 1, mtu=rng.choice([576, 1500, 1492, 9216]), wifi=rng.random() < 0.6)
         c1.d['mac'] = bytes([2, 0xEE, 0, 0, rng.randrange(256), rng.randrange(1, 255)])
+        if len(out) % 3 == 1:
+            # both interfaces carry the SAME address (a VLAN sub-interface, a bond, a bridge port): still two interfaces
+            m0 = [re.search(r'\bmac=([0-9a-f]{12})', l) for l in lines if l.startswith('cfg 0 ')]
+            c1.d['mac'] = bytes.fromhex(m0[-1].group(1)) if m0 and m0[-1] else OWN0
         own1 = c1.own()
         def burst(seq0):
             b = Scn()
